@@ -8,6 +8,7 @@ import (
 	"fmt"
 	"io"
 	"log/slog"
+	"net"
 	"net/http"
 	"reservoir/cache"
 	"reservoir/config"
@@ -283,6 +284,17 @@ func (p *Proxy) handleHTTP(r responder.Responder, proxyReq *http.Request) error 
 	return p.processRequest(r, proxyReq, key, clientHd)
 }
 
+// drainBeforeClose ends a tunnel whose next request could not be parsed without resetting it. Closing
+// a socket that still holds unread bytes from the client (the rest of what we refused to parse, a TLS
+// close_notify) makes the kernel answer with a RST, and a RST can destroy the tail of the response to
+// the previous request before the client has read it. So: announce the end, then read what is left for a
+// moment (net/http does the same for its own connections).
+func drainBeforeClose(tlsConn *tls.Conn, raw net.Conn) {
+	tlsConn.CloseWrite()
+	raw.SetReadDeadline(time.Now().Add(500 * time.Millisecond))
+	io.Copy(io.Discard, raw)
+}
+
 func (p *Proxy) handleCONNECT(r responder.Responder, proxyReq *http.Request) error {
 	slog.Info("Handling CONNECT request", "url", proxyReq.URL, "remote_addr", proxyReq.RemoteAddr)
 
@@ -341,6 +353,7 @@ func (p *Proxy) handleCONNECT(r responder.Responder, proxyReq *http.Request) err
 				slog.Debug("Client closed connection in CONNECT tunnel", "host", proxyReq.Host)
 			} else {
 				slog.Error("Error reading request from client in CONNECT tunnel", "host", proxyReq.Host, "error", err)
+				drainBeforeClose(tlsConn, clientConn)
 			}
 			break
 		}
